@@ -16,6 +16,25 @@ namespace Pharmpy.C14
 theorem doseid_eq_walk_partial (cfg : Cfg) (ds : List Rec) (h : Regular cfg ds) :
     getDoseid cfg ds = walkDoseid cfg ds := doseid_eq_walk h
 
+/-- For EVERY dataset (reset events, ties, any order of times): at each dose record
+    `get_doseid` is the walk (the number of doses of the individual so far). -/
+theorem doseid_eq_walk_at_doses (cfg : Cfg) (ds : List Rec) :
+    ∀ p ∈ ds.zip ((getDoseid cfg ds).zip (walkDoseid cfg ds)), p.1.amt > 0 → p.2.1 = p.2.2 :=
+  doseid_walk_at_doses cfg ds
+
+/-- On every dataset in which no record other than a dose follows a dose record of its individual
+    at the same time stamp — reset events, SS, non-chronological times, negative amounts all
+    allowed — `get_doseid` is the walk. -/
+theorem doseid_eq_walk_noties (cfg : Cfg) (ds : List Rec) (h : NoTie ds) :
+    getDoseid cfg ds = walkDoseid cfg ds := doseid_eq_walk_of_notie h
+
+/-- non-vacuity of `NoTie`: resets with restarting time, two individuals -/
+example :
+    let ds := [mkRec 0 1 0 10 1, mkRec 1 1 2 0, mkRec 2 1 3 0 3, mkRec 3 1 0 5 4, mkRec 4 1 1 0, mkRec 5 2 1 0,
+               mkRec 6 2 3 7 1, mkRec 7 2 4 0]
+    NoTie ds ∧ getDoseid cfgEvid ds = [1, 1, 1, 2, 2, 0, 1, 1] := by
+  decide +kernel
+
 /-- F11: the full statement is false — two individuals with identical records get different ids
     (`0 in groupind` tests the row label, not "first dose of the individual"). -/
 theorem doseid_first_row_witness :
